@@ -10,19 +10,40 @@ import (
 	m "verif/internal/model"
 )
 
+// scenarioBase is a caller-supplied base symbol table (biscuit.WithSymbols): strings no scenario uses.
+var scenarioBase = []string{"verif_base_0", "verif_base_1", "verif_base_2"}
+
 // mkToken builds the token of a scenario through the public builders and,
-// when reload is set, passes it through Serialize/Unmarshal.
+// when reload is set, passes it through Serialize/Unmarshal. One scenario in five
+// is composed over a custom base symbol table.
 func mkToken(tok m.Token, rootSeed uint64, reload bool) (*biscuit.Biscuit, ed25519.PublicKey, error) {
-	b, pub, err := bridge.BuildToken(rootSeed, rootSeed^0x9e3779b97f4a7c15, tok)
+	return mkTokenOpt(tok, rootSeed, reload, true)
+}
+
+// mkTokenOpt: allowBase=false keeps the default base table (for callers that go on
+// editing the token at wire level with the default offsets).
+func mkTokenOpt(tok m.Token, rootSeed uint64, reload bool, allowBase bool) (*biscuit.Biscuit, ed25519.PublicKey, error) {
+	var base []string
+	if allowBase && rootSeed%5 == 0 {
+		base = scenarioBase
+	}
+	pub, priv := bridge.RootKey(rootSeed)
+	rng := bridge.NewDetRand(rootSeed ^ 0x9e3779b97f4a7c15)
+	b, err := bridge.BuildAuthorityBase(priv, rng, tok.Blocks[0], nil, base)
 	if err != nil {
 		return nil, pub, fmt.Errorf("build: %w", err)
+	}
+	for _, blk := range tok.Blocks[1:] {
+		if b, err = bridge.AppendBlock(b, rng, blk); err != nil {
+			return nil, pub, fmt.Errorf("build: %w", err)
+		}
 	}
 	if reload {
 		ser, err := b.Serialize()
 		if err != nil {
 			return nil, pub, fmt.Errorf("serialize: %w", err)
 		}
-		b, err = biscuit.Unmarshal(ser)
+		b, err = bridge.UnmarshalBase(ser, base)
 		if err != nil {
 			return nil, pub, fmt.Errorf("unmarshal: %w", err)
 		}
